@@ -978,7 +978,6 @@ class TreeTransform(Generic[TreeFnT]):
           '`output_keys` is deprecated, use positional arguments or'
           ' `assign_keys` instead.'
       )
-    assign_keys = assign_keys or output_keys
     fn = tree_fns.Assign(
         output_keys=assign_keys,
         fn=fn,
